@@ -264,6 +264,10 @@ def execute(case):
         res.violate('library-cell-missing', f'library {LIBS[case["lib"]]} no longer offers {missing_cells(case["lib"])[:6]} ({len(missing_cells(case["lib"]))} names of the pinned tree): instances of these cells cannot be resolved')
         return res
     c = build(case, res)
+    # the library's implementation circuits are shared objects: every later instance is resolved from them, so a
+    # transformation must leave them as they are (compared at the end of the history)
+    used_cells = sorted({it[1] for it in case['items'] if it[0] == 'lib'})
+    impl_before = {name: graphsim.real_signature(tlib.cells[name][0]) for name in used_cells}
     uid = 0
     prev_kind = None
     last_impl = None
@@ -368,6 +372,10 @@ def execute(case):
                 row = (diff & -diff).bit_length() - 1
                 res.violate('function-changed', f'step {k} ({did}): value at the data pin of "{name}" differs in table row {row} (before {(tab0[name] >> row) & 1}, after {(tab1[name] >> row) & 1}; variables {names0})')
                 return res
+    for name in used_cells:
+        if graphsim.real_signature(tlib.cells[name][0]) != impl_before[name]:
+            res.violate('library-implementation-mutated', f'the implementation circuit of library cell {name} was modified by the transformations (later instances of the cell are resolved from it)')
+            return res
     return res
 
 
